@@ -165,6 +165,30 @@ def run_d(ck, prog, crate, n_parsers, n_literals, cli_types=True):
                     drained = any(f[0] == "variant" and f[2] == "None" and mentions_call(f[1], ctx, nexts) for f in facts)
                     ck.ob("C20.5", f"{short}|success-only-after-all-arguments-were-read", drained, fn=p, site=ctx.site(ob),
                           detail="the parser can return Ok without having read the arguments to the end (the loop is left early): trailing arguments - options after a subcommand, misspelt flags - are silently ignored instead of parsed or rejected")
+        # C20.5 (values): an option that takes a value fetches it with a checked `args.next()`: the fetch's None edge (the command
+        # line ended right after the option) leads to an error, never back into the loop or to success
+        if p.endswith("::arg_parse"):
+            nexts_all2 = [bb for bb, t in ctx.cfg.calls(lambda t: (t.get("callee") or "").endswith("Iterator::next"))]
+            okb3 = {b["id"] for b in fn["blocks"] if b["id"] in ctx.cfg.live_blocks() and any(s2["k"] == "assign" and s2["dst"]["l"] == 0 and not s2["dst"].get("p") and s2["rv"]["k"] == "agg" and s2["rv"].get("variant") == "Ok" for s2 in b["stmts"])}
+            heads = set()
+            for nb in nexts_all2:
+                for sb2 in ctx.cfg.live_blocks():
+                    if ctx.cfg.term(sb2)["k"] != "switch":
+                        continue
+                    for e2 in ctx.cfg.succ[sb2]:
+                        if any(f[0] == "variant" and f[2] == "None" and mentions_call(f[1], ctx, [nb]) for f in ctx.edge_facts(e2)) and (ctx.cfg.reachable_from(e2.dst, avoid=set(nexts_all2)) & okb3):
+                            heads.add(nb)      # the loop's own fetch: running out of arguments here ends the parse
+            unchecked = []
+            for nb in nexts_all2:
+                if nb in heads:
+                    continue
+                none_edges2 = [e2 for sb2 in ctx.cfg.live_blocks() if ctx.cfg.term(sb2)["k"] == "switch" for e2 in ctx.cfg.succ[sb2]
+                               if any(f[0] == "variant" and f[2] == "None" and mentions_call(f[1], ctx, [nb]) for f in ctx.edge_facts(e2))]
+                good = bool(none_edges2) and all(not (ctx.cfg.reachable_from(e2.dst) & (okb3 | set(nexts_all2))) for e2 in none_edges2)
+                if not good:
+                    unchecked.append(nb)
+            ck.ob("C20.5", f"{short}|missing-value-is-an-error", bool(heads) and not unchecked, fn=p, site=ctx.site(unchecked[0]) if unchecked else None,
+                  detail=f"{len(unchecked)} value fetch(es) (`args.next()` inside an option's arm) whose `None` - the option was the last argument - does not end in an error: the option is accepted without its value")
         # C20.6: the declared grammar is the only thing that decides what happens to a token
         if p.endswith("::arg_parse"):
             ALLOWED_CONSUMERS = ("Try::branch", "FromResidual::from_residual", "fmt::Arguments::<'a>::new", "ArgParseError::new_cause_fmt", "ArgParseError::new_cause_str", "UnixStr::as_str", "FromStr::from_str",
